@@ -206,6 +206,70 @@ func main() {
 		for i := 0; i < *n; i++ {
 			statCase(rnd, key, out)
 		}
+	case "explore":
+		// explore -in <history>: the history's `E conc` line (its schedule, if any, is ignored) is executed under every
+		// lock-granularity interleaving within the preemption bound; one history is written per distinct outcome
+		fs := flag.NewFlagSet("explore", flag.ExitOnError)
+		in := fs.String("in", "", "history file (HIST header + E lines, one of them E conc ...)")
+		bound := fs.Int("preemptions", 2, "preemption bound")
+		maxRuns := fs.Int("max", 4000, "interleavings at most")
+		fs.Parse(os.Args[2:])
+		data, err := os.ReadFile(*in)
+		if err != nil {
+			panic(err)
+		}
+		out := bufio.NewWriterSize(os.Stdout, 1<<20)
+		defer out.Flush()
+		cfg := Config{ReceiptCap: 128, Mods: "vod"}
+		header := ""
+		var prefix, post []string
+		var conns []int
+		seenConc := false
+		for _, line := range strings.Split(string(data), "\n") {
+			fields := strings.Fields(strings.TrimSpace(line))
+			if len(fields) == 0 {
+				continue
+			}
+			switch fields[0] {
+			case "HIST":
+				header = strings.Join(fields, " ")
+				for _, kv := range fields[2:] {
+					k, v, _ := strings.Cut(kv, "=")
+					switch k {
+					case "flags":
+						if v != "-" {
+							cfg.Flags = strings.Split(v, ",")
+						}
+					case "mods":
+						cfg.Mods = v
+					case "rcap":
+						cfg.ReceiptCap, _ = strconv.Atoi(v)
+					}
+				}
+			case "E":
+				ev := strings.Join(fields[1:], " ")
+				switch {
+				case fields[1] == "conc" && !seenConc:
+					seenConc = true
+					for i, part := range strings.Split(ev, " | ") {
+						if i > 0 {
+							c, _ := strconv.Atoi(strings.Fields(part)[0])
+							conns = append(conns, c)
+						}
+					}
+				case seenConc:
+					post = append(post, ev)
+				default:
+					prefix = append(prefix, ev)
+				}
+			}
+		}
+		if !seenConc {
+			panic("no E conc line in " + *in)
+		}
+		e, d, dl := exploreConc(cfg, header, prefix, conns, post, *bound, *maxRuns, out)
+		out.Flush()
+		fmt.Printf("CSTAT explored=%d distinct=%d deadlocks=%d\n", e, d, dl)
 	case "replay":
 		fs := flag.NewFlagSet("replay", flag.ExitOnError)
 		in := fs.String("in", "", "history file (HIST header + E lines; other lines ignored)")
